@@ -98,7 +98,7 @@ PROPS['C06'] = {
     'parts': [{'src': 'harness/squeue.cpp', 'prefix': 'C06/', 'variants': ['g17'], 'defs': ['VERIF_ONLY=6']}],
     'rule': 'stateless DFS over all schedules of each generated thread configuration (1-2 producers x 1-2 consumers, consumer op lists of length 1-2 over process/processOne/processIf/processUntil/takeEvent/peekEvent/clearEvents) within the preemption bound; oracle = per-event ledger (exactly once, payload intact, destroyed undelivered only inside clearEvents), per producer/consumer order, no deadlock, HB race detector on the shared lists; distinct = distinct per-execution outcome hashes (ledger + call results)',
     'assumptions': S_ASSUME,
-    'bounds': {'quick': '<=3 child threads, <=3 events, preemption bound 2 (HeterEventQueue: 1)', 'thorough': 'preemption bound 3 for <=3 child threads, 2 for the 4-thread configurations (HeterEventQueue: 2)'},
+    'bounds': {'quick': '<=3 child threads, <=3 events, preemption bound 2 (HeterEventQueue: 1); stateful units: all interleavings of 2-3 thread configurations, no preemption bound', 'thorough': 'preemption bound 3 for <=3 child threads, 2 for the 4-thread configurations (HeterEventQueue: 2); stateful units: further 3-thread configurations, no preemption bound'},
     'deadline': {'quick': 170, 'thorough': 1700},
 }
 
@@ -106,9 +106,9 @@ PROPS['C07'] = {
     'title': 'wait/waitFor never miss a wake-up; DisableQueueNotify only defers it',
     'level': 'exploration',
     'parts': [{'src': 'harness/squeue.cpp', 'prefix': 'C07/', 'variants': ['g17'], 'defs': ['VERIF_ONLY=7']}],
-    'rule': 'stateless DFS over all schedules of waiter/enqueuer/processor configurations (1-2 waiters using wait or waitFor, enqueuers with plain, single and nested DisableQueueNotify scopes, optional processor) within the preemption bound; terminal states with a thread blocked in wait() are judged by the oracle (pending event + no DisableQueueNotify alive = lost wake-up); wait-return clauses checked on the recorded intervals; distinct = distinct per-execution outcome hashes',
+    'rule': 'stateless DFS over all schedules of waiter/enqueuer/processor configurations (1-2 waiters using wait or waitFor, enqueuers with plain, single and nested DisableQueueNotify scopes, bare DisableQueueNotify scopes on a third thread, optional processor, selective consumers processIf/processUntil that put declined events back without notifying) within the preemption bound; terminal states with a thread blocked in wait() are judged by the oracle (pending event + no DisableQueueNotify alive = lost wake-up); wait-return clauses checked on the recorded intervals; distinct = distinct per-execution outcome hashes',
     'assumptions': S_ASSUME,
-    'bounds': {'quick': '<=3 child threads, preemption bound 2', 'thorough': 'preemption bound 3 for <=3 child threads, 2 for the 4-thread configurations; one spurious wake-up allowed as a further deviation'},
+    'bounds': {'quick': '<=3 child threads, preemption bound 2; stateful units: all interleavings of 2-3 thread configurations, no preemption bound', 'thorough': 'preemption bound 3 for <=3 child threads, 2 for the 4-thread configurations; one spurious wake-up allowed as a further deviation; stateful units: further 3-thread configurations, no preemption bound'},
     'deadline': {'quick': 170, 'thorough': 1700},
 }
 
@@ -118,7 +118,7 @@ PROPS['C11'] = {
     'parts': [{'src': 'harness/squeue.cpp', 'prefix': 'C11/', 'variants': ['g17'], 'defs': ['VERIF_ONLY=11']}],
     'rule': 'stateless DFS over all schedules of observer (emptyQueue / waitFor(0)) x enqueuer x worker (process/processOne/processIf/processUntil/takeEvent/clearEvents) configurations within the preemption bound, listeners themselves calling emptyQueue(); oracle: for every true emptyQueue() / timed-out waitFor with interval [s,r], each event whose enqueue returned before s has by r had its listener return, or its take/clear call begin (intervals oriented so imprecision only weakens the check)',
     'assumptions': S_ASSUME,
-    'bounds': {'quick': '3 child threads, preemption bound 2 (HeterEventQueue: 1); sequential listener-observer search budget 1', 'thorough': 'preemption bound 3 for 3 child threads, 2 for the 4-thread configurations'},
+    'bounds': {'quick': '3 child threads, preemption bound 2 (HeterEventQueue: 1); sequential listener-observer search budget 1; stateful units: all interleavings of 2-3 thread configurations, no preemption bound', 'thorough': 'preemption bound 3 for 3 child threads, 2 for the 4-thread configurations; stateful units: further 3-thread configurations, no preemption bound'},
     'deadline': {'quick': 170, 'thorough': 1700},
 }
 
@@ -128,7 +128,7 @@ PROPS['C03'] = {
     'parts': [{'src': 'harness/slist.cpp', 'prefix': 'C03/', 'variants': ['g17'], 'defs': ['VERIF_SUB=%d' % i]} for i in range(7)],
     'rule': 'stateless DFS over all schedules of generated configurations (2 threads x 1 op: all pairs; 3 threads x 1 op: triples with a traversal or two operations on the shared handle h1; 2 threads x 2 ops) over {append, prepend, insert before h1, remove h1, remove h2, ownsHandle h1, empty, invoke, forEach; dispatcher: + appendListener/dispatch/hasAnyListener on a second event created concurrently} on a shared initial list [0,1,2]; oracle: brute-force linearizability of all non-traversal calls + final order, per-traversal rules, destructive probe after join, deadlock, HB race detector on the map, ASan/UBSan; distinct = distinct per-execution outcome hashes; plus STATEFUL units (C03/all-interleavings/...): ALL interleavings of the same configurations without a preemption bound, pruned by a visited set over global states (list/map structure, mutex owners, per-thread operation index + observation hash into which the whole shared-structure hash is mixed at the start of every atomic block, recorded call results and their order)',
     'assumptions': S_ASSUME + ['CallbackList head/tail/links are ordinary memory: a removed lock shows through the mid-critical-section hook points as a lost update (behavioural oracle), not through the race detector'],
-    'bounds': {'quick': 'list+VMutex bound 2; SpinLock and dispatcher (std::map / std::unordered_map through the Map policy) bound 1; collision-rich subset of the 2x2 and 3x1 configurations', 'thorough': 'bound 3 (list+VMutex) / 2 (others); all configurations'},
+    'bounds': {'quick': 'list+VMutex bound 2; SpinLock and dispatcher (std::map / std::unordered_map through the Map policy) bound 1; collision-rich subset of the 2x2 and 3x1 configurations; stateful units: all interleavings of 2-3 thread configurations, no preemption bound', 'thorough': 'bound 3 (list+VMutex) / 2 (others); all configurations; stateful units: further 3-thread configurations, no preemption bound'},
     'deadline': {'quick': 170, 'thorough': 1700},
 }
 
@@ -201,7 +201,7 @@ PROPS['C04'] = {
            + [{'src': 'harness/dispatch.cpp', 'prefix': 'C04/', 'variants': ['g17', 'c17'], 'defs': ['VERIF_SUB=%d' % i, 'VERIF_FULL=1'], 'tier': 'thorough'} for i in range(5)],
     'rule': 'type matrix of EventDispatcher instantiations: key type {int, enum class, std::string beyond SSO, struct with <, struct with std::hash and ==} x how the prototype takes key and payload {by value, const&, payload &} x ArgumentPassingMode {auto, include, exclude} (both dispatch forms) x getEvent {default, policy reading a field of the argument that a move clears} x Map {default ordered/hashed, user template}; in each cell a BFS over listener histories (append/prepend/remove on 3 keys, listeners alternately taking arguments by value and by reference) with dispatch of every key in 6 call-site value-category combinations; g++ (right-to-left argument evaluation) and clang++ (left-to-right)',
     'assumptions': H_ASSUME + ['the matrix is a covering selection of the full product (4 cells per key type in the quick tier, 13 in the thorough tier), not the full product'],
-    'bounds': {'quick': '24 cells under g++ + 6 under clang++, <=3 listeners, depth 3', 'thorough': '85 cells x {g++, clang++}, depth 5'}, depth 4'},
+    'bounds': {'quick': '7 cells per key type (5 key types) under g++ + the std::string cells under clang++, <=3 listeners, depth 3', 'thorough': '20 cells per key type x (g++, clang++), depth 5'},
     'per_variant_sigs': True,
 }
 
